@@ -53,7 +53,15 @@ func encodeFunc(w *World, fn *ssa.Function, noPanics bool) (rep *FuncReport) {
 	for _, li := range e.loopList {
 		li.mods = map[string]bool{}
 		li.genMods = map[string]bool{}
+		li.targets = map[string][]ssa.Value{}
+		cnt := map[string]int{}
 		for b := range li.body {
+			for k, n := range e.genCount[b] {
+				cnt[k] += n
+			}
+			for k, vs := range e.genNotes[b] {
+				li.targets[k] = append(li.targets[k], vs...)
+			}
 			for k := range e.genWrites[b] {
 				li.genMods[k] = true
 			}
@@ -62,6 +70,18 @@ func encodeFunc(w *World, fn *ssa.Function, noPanics bool) (rep *FuncReport) {
 			}
 			if e.havocs[b] {
 				li.all = true
+			}
+		}
+		// keep the target list only if every general write is accounted for and every target is defined outside the loop
+		for k, vs := range li.targets {
+			ok := len(vs) == cnt[k]
+			for _, v := range vs {
+				if in, isI := v.(ssa.Instruction); isI && li.body[in.Block()] {
+					ok = false
+				}
+			}
+			if !ok {
+				delete(li.targets, k)
 			}
 		}
 	}
